@@ -1,6 +1,7 @@
 package main
 
 import (
+	"fmt"
 	"go/ast"
 	"go/types"
 )
@@ -134,6 +135,9 @@ func init() {
 			return x.rvRead(st, which, asTerm(a[0])), true
 		}
 	}
+	// Interface(): the value as an interface — the handle stored in the X content heap (for a value made
+	// by ValueOf of a non-basic value this is that value; for others an uninterpreted boxed handle)
+	libModels["reflect.Value.Interface"] = get("X")
 	libModels["reflect.Value.Int"] = get("I")
 	libModels["reflect.Value.Uint"] = get("I")
 	libModels["reflect.Value.Float"] = get("F")
@@ -199,6 +203,17 @@ func init() {
 		st.names["$rvheap:"+rv.S] = h
 		return rv, true
 	}
+	// slicing and length of a reflect.Value: reflect's own operations, uninterpreted (the obligation is
+	// that the closure delegates to them with the operands of the expression, in order)
+	libModels["reflect.Value.Len"] = func(x *Exec, st *State, e *ast.CallExpr, a []Value, _ []types.Type) (Value, bool) {
+		return x.uf("rvLen", SInt, asTerm(a[0])), true
+	}
+	libModels["reflect.Value.Slice"] = func(x *Exec, st *State, e *ast.CallExpr, a []Value, _ []types.Type) (Value, bool) {
+		return x.uf("rvSliceOp", SInt, asTerm(a[0]), asTerm(a[1]), asTerm(a[2])), true
+	}
+	libModels["reflect.Value.Slice3"] = func(x *Exec, st *State, e *ast.CallExpr, a []Value, _ []types.Type) (Value, bool) {
+		return x.uf("rvSlice3Op", SInt, asTerm(a[0]), asTerm(a[1]), asTerm(a[2]), asTerm(a[3])), true
+	}
 	libModels["reflect.New"] = func(x *Exec, st *State, e *ast.CallExpr, a []Value, _ []types.Type) (Value, bool) {
 		// a pointer value whose Elem is a fresh, zeroed, settable value of the type
 		p := x.newRef(st, "rvp")
@@ -227,6 +242,25 @@ func init() {
 		k := Term{"(rtKind " + typ.S + ")", SInt}
 		st.assume("(= " + rvKindOf(rv).S + " " + k.S + ")")
 		h, _ := st.names["$rvheap:"+src.S].(string)
+		// reflect's convertibility between basic kinds (Value.Convert panics otherwise)
+		kin := func(lo, hi int) string { return fmt.Sprintf("(and (<= %d %s) (<= %s %d))", lo, k.S, k.S, hi) }
+		okc := ""
+		switch h {
+		case "I":
+			okc = "(or " + kin(2, 14) + " (= " + k.S + " 24))"
+		case "F":
+			okc = kin(2, 14)
+		case "C":
+			okc = kin(15, 16)
+		case "S":
+			okc = "(or (= " + k.S + " 24) (= " + k.S + " 23))"
+		case "B":
+			okc = "(= " + k.S + " 1)"
+		}
+		if okc != "" && !x.contract {
+			okc = "(or " + okc + " (= " + k.S + " 20))" // any value converts to an interface type it implements
+			addPendingPanic(st, "(not "+okc+")", "reflect.Value.Convert: value cannot be converted to the type")
+		}
 		switch h {
 		case "I":
 			x.rvWrite(st, "I", rv, x.wrapToKind(k, x.rvRead(st, "I", src)))
